@@ -122,14 +122,37 @@ def generate(config="ws", repo=None, quiet=False):
     cargo_args, expected = CONFIGS[config]
     out_dir = os.path.join(WORK, "facts", th, config)
     os.makedirs(os.path.join(WORK, "facts"), exist_ok=True)
-    lock_path = os.path.join(WORK, "gen.lock")
-    with open(lock_path, "w") as lock:
+    done = os.path.join(out_dir, "DONE")
+    if os.path.exists(done):
+        # facts of this exact tree (and driver build) are there: no need to queue behind generations for other trees
+        try:
+            os.utime(os.path.join(WORK, "facts", th))
+        except OSError:
+            pass
+        return out_dir
+    # a few generation slots, each with its own cargo target directory (development harnesses analyse many scratch trees at once);
+    # two requests for the same tree serialise on the tree's own lock
+    nslots = int(os.environ.get("VERIF_GEN_SLOTS", "4"))
+    tree_lock = open(os.path.join(WORK, "facts", th + ".lock"), "w")
+    fcntl.flock(tree_lock, fcntl.LOCK_EX)
+    lock, slot = None, None
+    for i in range(nslots):
+        f = open(os.path.join(WORK, "gen.%d.lock" % i), "w")
+        try:
+            fcntl.flock(f, fcntl.LOCK_EX | fcntl.LOCK_NB)
+            lock, slot = f, i
+            break
+        except OSError:
+            f.close()
+    if lock is None:
+        slot = os.getpid() % nslots
+        lock = open(os.path.join(WORK, "gen.%d.lock" % slot), "w")
         fcntl.flock(lock, fcntl.LOCK_EX)
-        done = os.path.join(out_dir, "DONE")
+    with lock:
         if not os.path.exists(done):
             shutil.rmtree(out_dir, ignore_errors=True)
             t0 = time.time()
-            tdir = os.path.join(WORK, "target", config if config != "ws" else "ws")
+            tdir = os.path.join(WORK, "target", (config if config != "ws" else "ws") + ("" if slot == 0 else "-%d" % slot))
             r = _run_driver(repo, cargo_args, out_dir, tdir)
             if r.returncode != 0:
                 shutil.rmtree(out_dir, ignore_errors=True)
@@ -162,6 +185,12 @@ def generate(config="ws", repo=None, quiet=False):
             except OSError:
                 pass
         fcntl.flock(lock, fcntl.LOCK_UN)
+    fcntl.flock(tree_lock, fcntl.LOCK_UN)
+    tree_lock.close()
+    try:
+        os.unlink(os.path.join(WORK, "facts", th + ".lock"))
+    except OSError:
+        pass
     return out_dir
 
 
